@@ -1,15 +1,24 @@
 //! C13, executed part: a really spawned pipeline (`Manager::load` -> `prepare` -> `spawn`, i.e.
-//! the real `Unit::run` tasks on a tokio runtime), real BMP-over-TCP sessions into the
-//! `bmp-tcp-in` units, (re)loads of edited configurations, and the RIB content / the registered
-//! HTTP endpoints / the router sessions / the listening sockets observed from outside through
-//! the real `Server::handle_request` and plain TCP.
+//! the real `Unit::run` tasks on a multi-threaded tokio runtime), real BMP-over-TCP sessions into
+//! the `bmp-tcp-in` units, (re)loads of edited configurations, and the RIB content / the answering
+//! HTTP endpoints / the router sessions / the listening sockets observed from outside through the
+//! real `Server::handle_request`, plain TCP and /proc/net/tcp.
+//!
+//! One case = one pipeline + a list of events (router connects, announcements, withdrawals,
+//! (re)loads), observed after every event:
+//!   `<res> U=<running units> rib=<path>:<limit>:<records> b0=<sessions> b1=<sessions> P=<listening ports> S=<open sessions>`
+//! Three streams: *sequential* (every event settles before the next), *racing* (announcements are
+//! written by another thread while the reload runs; which of them were dropped is observed and
+//! becomes part of the case line, like the HashMap-order-dependent leftovers of the loader),
+//! *forced window* (a pause point holds the upstream gate right after it installed the empty
+//! subscriber set of the new gate, one announcement is sent, the gate is released).
 //!
 //! Included by `src/bin/c13.rs` via `#[path]` (it is not part of the library).
 use std::collections::{BTreeMap, BTreeSet};
 use std::io::{Read, Write};
 use std::net::{SocketAddr, TcpListener, TcpStream};
 use std::panic::{catch_unwind, AssertUnwindSafe};
-use std::sync::atomic::{AtomicBool, Ordering};
+use std::sync::atomic::{AtomicBool, AtomicUsize, Ordering};
 use std::sync::Arc;
 use std::time::{Duration, Instant};
 
@@ -23,10 +32,9 @@ use verif_harness::{join, rng::Rng, Recorder};
 
 // ------------------------------------------------------------------ abstract documents
 
-/// The settings of one `bmp-tcp-in` unit: which of the case's ports it listens on.
 #[derive(Clone, Debug, PartialEq)]
 pub struct BmpCfg { pub port: u8 }
-/// The settings of the `rib` unit the engine can observe from outside.
+/// The settings of the `rib` unit that can be observed from outside.
 #[derive(Clone, Debug, PartialEq)]
 pub struct RibCfg { pub sources: Vec<u8>, pub v4: u8, pub path: u8 }
 #[derive(Clone, Debug, PartialEq)]
@@ -34,15 +42,16 @@ pub struct LDoc {
     /// `b0`, `b1`
     pub bmp: [Option<BmpCfg>; 2],
     pub rib: Option<RibCfg>,
-    /// null-out targets: name id -> sources (0/1 = b0/b1, 2 = rib)
+    /// null-out targets: name id -> sources (0/1 = b0/b1, 2 = rib, 7 = a unit that does not exist)
     pub nulls: Vec<(u8, Vec<u8>)>,
-    /// 0 = fine, 1 = not TOML, 2 = a target with an unknown type
+    /// 0 = fine, 1 = not TOML, 2 = an extra target with an unknown type
     pub broken: u8,
 }
 
 pub const PATHS: [&str; 2] = ["/prefixes/", "/rib2/"];
 
-fn unit_name(i: u8) -> &'static str { match i { 0 => "b0", 1 => "b1", _ => "rib" } }
+fn unit_name(i: u8) -> String { match i { 0 => "b0".into(), 1 => "b1".into(), 2 => "rib".into(), n => format!("u{n}") } }
+fn unit_id(s: &str) -> u32 { match s { "b0" => 0, "b1" => 1, "rib" => 2, x => x[1..].parse().unwrap_or(99) } }
 
 impl LDoc {
     pub fn show(&self) -> String {
@@ -77,20 +86,21 @@ impl LDoc {
         for (n, srcs) in &self.nulls {
             s.push_str(&format!("\n[targets.t{}]\ntype = \"null-out\"\nsources = [{}]\n", n, join(srcs.iter().map(|x| format!("\"{}\"", unit_name(*x))), ", ")));
         }
-        if self.nulls.is_empty() { s.push_str("\n[targets]\n"); }
-        match self.broken { 1 => s.push_str("\n[[[ not toml\n"), 2 => s.push_str("\n[targets.zz]\ntype = \"no-such-type\"\nsources = [\"b0\"]\n"), _ => {} }
+        if self.nulls.is_empty() && self.broken != 2 { s.push_str("\n[targets]\n"); }
+        match self.broken { 1 => s.push_str("\n[[[ not toml\n"), 2 => s.push_str("\n[targets.t9]\ntype = \"no-such-type\"\nsources = [\"b0\"]\n"), _ => {} }
         s
     }
+    fn present(&self, u: u8) -> bool { match u { 0 | 1 => self.bmp[u as usize].is_some(), 2 => self.rib.is_some(), _ => false } }
     /// referenced units (what must run after a successful load), `None` if a link is unresolved
     pub fn referenced(&self) -> Option<BTreeSet<u8>> {
         let mut refs = BTreeSet::new();
         for (_, s) in &self.nulls { refs.extend(s.iter().cloned()); }
         if let Some(r) = &self.rib { refs.extend(r.sources.iter().cloned()); }
-        for r in &refs { let present = match r { 0 | 1 => self.bmp[*r as usize].is_some(), _ => self.rib.is_some() }; if !present { return None; } }
-        Some(refs)
+        if refs.iter().all(|r| self.present(*r)) { Some(refs) } else { None }
     }
+    /// the property's reading: is this a configuration that must load?
     pub fn valid(&self) -> bool {
-        self.broken == 0 && self.referenced().is_some() && self.rib.as_ref().map(|r| !r.sources.is_empty() && r.sources.iter().all(|s| *s < 2)).unwrap_or(true)
+        self.broken == 0 && self.referenced().is_some() && self.rib.as_ref().map(|r| !r.sources.is_empty()).unwrap_or(true)
             && self.nulls.iter().all(|(_, s)| !s.is_empty())
     }
 }
@@ -98,37 +108,51 @@ impl LDoc {
 // ------------------------------------------------------------------ events
 
 #[derive(Clone, Debug, PartialEq)]
+pub struct Race { pub r: u8, pub active: bool, pub pfx: Vec<u16>, pub lost: Vec<u16> }
+
+#[derive(Clone, Debug, PartialEq)]
 pub enum LEv {
-    /// router `r` opens a TCP session to the port with index `port` and sends Initiation + Peer Up
+    /// router `r` opens a TCP session to port index `port` and sends Initiation + Peer Up
     Connect { r: u8, port: u8 },
-    /// router `r` announces / withdraws prefixes (one Route Monitoring message)
-    Ann { r: u8, pfx: Vec<u16> },
-    Wd { r: u8, pfx: Vec<u16> },
-    /// (re)load a document; `racing` = routers and prefixes announced *while* the load runs
-    Load { doc: LDoc, racing: Vec<(u8, Vec<u16>)> },
+    /// router `r` announces (`active`) / withdraws prefixes in one Route Monitoring message
+    Route { r: u8, active: bool, pfx: Vec<u16> },
+    /// (re)load. `racing`: announcements written by another thread while the load runs (or, `forced`,
+    /// while the upstream gate is held inside its reconfigure window); which of them were dropped
+    /// (`lost`) is observed. `residue` / `moved`: loader leftovers of a failing load (see c13.rs), observed.
+    Load { doc: LDoc, forced: bool, residue: BTreeSet<u32>, moved: BTreeSet<u32>, racing: Vec<Race> },
 }
 
 impl LEv {
     pub fn show(&self) -> String {
         match self {
             LEv::Connect { r, port } => format!("c{}@{}", r, port),
-            LEv::Ann { r, pfx } => format!("a{}:{}", r, join(pfx.iter(), "+")),
-            LEv::Wd { r, pfx } => format!("w{}:{}", r, join(pfx.iter(), "+")),
-            LEv::Load { doc, racing } => format!("L{}!{}", doc.show(), join(racing.iter().map(|(r, p)| format!("{}:{}", r, join(p.iter(), "+"))), ";")),
+            LEv::Route { r, active, pfx } => format!("{}{}:{}~", if *active { 'a' } else { 'w' }, r, join(pfx.iter(), "+")),
+            LEv::Load { doc, forced, residue, moved, racing } => format!("{}{}~{}~{}!{}", if *forced { 'F' } else { 'L' }, doc.show(), join(residue.iter(), "+"), join(moved.iter(), "+"),
+                join(racing.iter().map(|x| format!("{}{}:{}~{}", if x.active { 'A' } else { 'W' }, x.r, join(x.pfx.iter(), "+"), join(x.lost.iter(), "+"))), ";")),
         }
     }
     pub fn parse(s: &str) -> Option<LEv> {
         let nums = |x: &str| -> Option<Vec<u16>> { if x.is_empty() { Some(vec![]) } else { x.split('+').map(|y| y.parse().ok()).collect() } };
+        if s.is_empty() { return None; }
         let (k, rest) = s.split_at(1);
         match k {
             "c" => { let (r, p) = rest.split_once('@')?; Some(LEv::Connect { r: r.parse().ok()?, port: p.parse().ok()? }) }
-            "a" => { let (r, p) = rest.split_once(':')?; Some(LEv::Ann { r: r.parse().ok()?, pfx: nums(p)? }) }
-            "w" => { let (r, p) = rest.split_once(':')?; Some(LEv::Wd { r: r.parse().ok()?, pfx: nums(p)? }) }
-            "L" => {
-                let (d, race) = rest.split_once('!')?;
+            "a" | "w" => {
+                let (r, p) = rest.split_once(':')?;
+                let p = p.split('~').next()?;
+                Some(LEv::Route { r: r.parse().ok()?, active: k == "a", pfx: nums(p)? })
+            }
+            "L" | "F" => {
+                let (head, race) = rest.split_once('!').unwrap_or((rest, ""));
+                let d = head.split('~').next()?;
                 let mut racing = vec![];
-                if !race.is_empty() { for t in race.split(';') { let (r, p) = t.split_once(':')?; racing.push((r.parse().ok()?, nums(p)?)); } }
-                Some(LEv::Load { doc: LDoc::parse(d)?, racing })
+                if !race.is_empty() { for t in race.split(';') {
+                    let (k2, rest2) = t.split_at(1);
+                    let (r, p) = rest2.split_once(':')?;
+                    let p = p.split('~').next()?;
+                    racing.push(Race { r: r.parse().ok()?, active: k2 == "A", pfx: nums(p)?, lost: vec![] });
+                } }
+                Some(LEv::Load { doc: LDoc::parse(d)?, forced: k == "F", residue: BTreeSet::new(), moved: BTreeSet::new(), racing })
             }
             _ => None,
         }
@@ -139,9 +163,103 @@ impl LEv {
 pub fn pfx_of(id: u16) -> Pfx { Pfx::v4([10, (id / 64) as u8, (id % 64) as u8, 0], 24) }
 fn pfx_str(id: u16) -> String { format!("10.{}.{}.0/24", id / 64, id % 64) }
 
+// ------------------------------------------------------------------ reference semantics (Rust)
+
+/// The two sites where the code as written deviates deterministically from the property.
+#[derive(Clone, Copy, Debug, PartialEq, Default)]
+pub struct Flags { pub path_ignored: bool, pub clone_stale: bool, pub queue_wedge: bool }
+
+/// What the pipeline looks like after an event. With `Flags::default()` this is the property's
+/// reading (the oracle); the engine's settle loop uses the flags detected on the real code.
+#[derive(Clone, Debug, PartialEq)]
+pub struct RefRib { pub store: BTreeMap<(u16, u8), bool>, pub cfg: RibCfg }
+#[derive(Clone, Debug, PartialEq)]
+pub struct RefBmp { pub port: u8, pub sessions: Vec<u8>, pub reloaded: bool, pub reloads: u32 }
+#[derive(Clone, Debug, PartialEq, Default)]
+pub struct RefState { pub bmp: [Option<RefBmp>; 2], pub rib: Option<RefRib>, pub last: String }
+
+impl RefState {
+    pub fn load(&mut self, doc: &LDoc, f: Flags) {
+        if !doc.valid() { self.last = "err".into(); return; }
+        self.last = "ok".into();
+        let refs = doc.referenced().unwrap();
+        for i in 0..2u8 {
+            let new = doc.bmp[i as usize].as_ref().filter(|_| refs.contains(&i));
+            self.bmp[i as usize] = match (self.bmp[i as usize].take(), new) {
+                // kept: sessions stay, listens where the file says (as written: not once its gate is wedged)
+                (Some(old), Some(c)) => { let wedged = f.queue_wedge && old.reloads >= 6; let n = if old.sessions.is_empty() { old.reloads } else { old.reloads + 1 };
+                    Some(RefBmp { port: if wedged { old.port } else { c.port }, sessions: old.sessions, reloaded: true, reloads: n }) }
+                (None, Some(c)) => Some(RefBmp { port: c.port, sessions: vec![], reloaded: false, reloads: 0 }),
+                (_, None) => None,
+            };
+        }
+        let new = doc.rib.as_ref().filter(|_| refs.contains(&2));
+        self.rib = match (self.rib.take(), new) {
+            (Some(old), Some(c)) => { let mut cfg = c.clone(); if f.path_ignored { cfg.path = old.cfg.path; } Some(RefRib { store: old.store, cfg }) }
+            (None, Some(c)) => Some(RefRib { store: BTreeMap::new(), cfg: c.clone() }),
+            (_, None) => None,
+        };
+    }
+    pub fn session_unit(&self, r: u8) -> Option<u8> { (0..2u8).find(|i| self.bmp[*i as usize].as_ref().map(|b| b.sessions.contains(&r)).unwrap_or(false)) }
+    pub fn wired(&self, r: u8) -> bool { match (self.session_unit(r), &self.rib) { (Some(b), Some(rib)) => rib.cfg.sources.contains(&b), _ => false } }
+    pub fn connect(&mut self, r: u8, port: u8, f: Flags) {
+        self.last = "-".into();
+        for b in self.bmp.iter_mut().flatten() { if b.port == port { if !(b.reloaded && f.clone_stale) { b.sessions.push(r); } return; } }
+    }
+    pub fn route(&mut self, r: u8, active: bool, pfx: &[u16], lost: &[u16]) {
+        self.last = "-".into();
+        if !self.wired(r) { return; }
+        let rib = self.rib.as_mut().unwrap();
+        for p in pfx { if !lost.contains(p) { if active { rib.store.insert((*p, r), true); } else if let Some(x) = rib.store.get_mut(&(*p, r)) { *x = false; } } }
+    }
+    pub fn apply(&mut self, e: &LEv, f: Flags) {
+        match e {
+            LEv::Connect { r, port } => self.connect(*r, *port, f),
+            LEv::Route { r, active, pfx } => self.route(*r, *active, pfx, &[]),
+            LEv::Load { doc, racing, .. } => { self.load(doc, f); let last = self.last.clone(); for x in racing { self.route(x.r, x.active, &x.pfx, &x.lost); } self.last = last; }
+        }
+    }
+    pub fn obs(&self, routers: &[u8]) -> Obs {
+        let mut units = vec![];
+        for i in 0..2 { if self.bmp[i].is_some() { units.push(i as u32); } }
+        if self.rib.is_some() { units.push(2); }
+        Obs {
+            res: self.last.clone(), units,
+            rib: self.rib.as_ref().map(|r| (format!("{}", r.cfg.path), if r.cfg.v4 <= 8 { "8".to_string() } else { "16".to_string() }, r.store.iter().map(|((p, s), a)| format!("{}.{}{}", p, s, if *a { 'A' } else { 'W' })).collect())),
+            bmp: [self.bmp[0].as_ref().map(|b| sorted(&b.sessions)), self.bmp[1].as_ref().map(|b| sorted(&b.sessions))],
+            ports: { let mut p: Vec<u8> = self.bmp.iter().flatten().map(|b| b.port).collect(); p.sort(); p },
+            open: { let mut o: Vec<u8> = routers.iter().filter(|r| self.session_unit(**r).is_some()).cloned().collect(); o.sort(); o },
+        }
+    }
+}
+fn sorted(v: &[u8]) -> Vec<u8> { let mut v = v.to_vec(); v.sort(); v }
+
+/// One observation of the pipeline (real or reference), in the order it is printed.
+#[derive(Clone, Debug, PartialEq)]
+pub struct Obs {
+    pub res: String,
+    pub units: Vec<u32>,
+    /// (path that answers — "0", "1", "01" …, limit probe, sorted records `pfx.routerA|W`)
+    pub rib: Option<(String, String, Vec<String>)>,
+    pub bmp: [Option<Vec<u8>>; 2],
+    pub ports: Vec<u8>,
+    pub open: Vec<u8>,
+}
+impl Obs {
+    pub fn show(&self) -> String {
+        let rib = match &self.rib { None => "-".to_string(), Some((p, l, recs)) => format!("{}:{}:{}", p, l, recs.join(",")) };
+        let b = |x: &Option<Vec<u8>>| x.as_ref().map(|s| format!("[{}]", join(s.iter(), ","))).unwrap_or("-".into());
+        format!("{} U={} rib={} b0={} b1={} P={} S={}", self.res, join(self.units.iter(), ","), rib, b(&self.bmp[0]), b(&self.bmp[1]), join(self.ports.iter(), ","), join(self.open.iter(), ","))
+    }
+}
+
 // ------------------------------------------------------------------ the real pipeline
 
-pub struct Router { pub sock: TcpStream, pub peer: BmpPeer, pub port: u8, pub alive: bool }
+pub struct Router { pub sock: TcpStream, pub peer: BmpPeer, pub sent: usize }
+
+/// Pause-point control shared with the runtime's worker threads (see `Live::new`).
+#[derive(Default)]
+pub struct Window { pub armed: AtomicBool, pub parked: AtomicUsize, pub release: AtomicBool }
 
 pub struct Live {
     pub rt: tokio::runtime::Runtime,
@@ -149,7 +267,8 @@ pub struct Live {
     pub dir: std::path::PathBuf,
     pub ports: Vec<u16>,
     pub routers: BTreeMap<u8, Router>,
-    marker: u16,
+    pub window: Arc<Window>,
+    next_marker: u16,
 }
 
 #[derive(Debug, PartialEq, Clone)]
@@ -161,31 +280,55 @@ fn free_ports(n: usize) -> Vec<u16> {
     ls.iter().filter_map(|l| l.local_addr().ok().map(|a| a.port())).collect()
 }
 
+thread_local! { static SAW_RECONF: std::cell::Cell<bool> = const { std::cell::Cell::new(false) }; }
+
 impl Live {
     pub fn new(dir: &std::path::Path) -> Live {
-        let rt = tokio::runtime::Builder::new_multi_thread().worker_threads(2).enable_all().build().unwrap();
+        let window: Arc<Window> = Arc::default();
+        let w = window.clone();
+        // Every worker thread of the pipeline's runtime gets the gate event handler of
+        // `rotonda::verif::gate`: when armed, a gate that has just handled `Reconfigure` (its
+        // `updates` map now holds the new gate's empty subscriber set; `notify.sent` is the tap
+        // right after) is held there until the harness releases it. Not armed: a no-op.
+        let rt = tokio::runtime::Builder::new_multi_thread().worker_threads(4).enable_all()
+            .on_thread_start(move || {
+                let w = w.clone();
+                rotonda::verif::gate::set_event_handler(Some(Arc::new(move |name: &'static str, _id| {
+                    if !w.armed.load(Ordering::SeqCst) { return; }
+                    if name == "cmd.reconfigure" { SAW_RECONF.with(|s| s.set(true)); return; }
+                    if name == "notify.sent" && SAW_RECONF.with(|s| s.replace(false)) {
+                        w.parked.fetch_add(1, Ordering::SeqCst);
+                        let t0 = Instant::now();
+                        while !w.release.load(Ordering::SeqCst) && t0.elapsed() < Duration::from_millis(1500) { std::thread::sleep(Duration::from_micros(200)); }
+                    }
+                })));
+            }).build().unwrap();
         let _g = rt.enter();
         vm::reset_loader();
         let manager = vm::Manager::new();
         drop(_g);
-        Live { rt, manager, dir: dir.to_path_buf(), ports: free_ports(3), routers: BTreeMap::new(), marker: 0 }
+        Live { rt, manager, dir: dir.to_path_buf(), ports: free_ports(3), routers: BTreeMap::new(), window, next_marker: 3000 }
     }
 
-    /// The real load path of `main.rs`: `ConfigFile::new` -> `Manager::load` -> `prepare` -> `spawn`.
-    pub fn load(&mut self, doc: &LDoc) -> LoadRes {
+    /// The load path of `main.rs`: `ConfigFile::new` -> `Manager::load` -> `prepare` -> `spawn`.
+    pub fn load(&mut self, doc: &LDoc) -> (LoadRes, BTreeSet<u32>, BTreeSet<u32>) {
         let _g = self.rt.enter();
+        let none = BTreeSet::new();
         let text = doc.render(&self.ports);
         let path = self.dir.join("rotonda.conf");
+        let ids = |v: Vec<String>| -> BTreeSet<u32> { v.iter().map(|s| unit_id(s)).collect() };
         let file = match catch_unwind(AssertUnwindSafe(|| vm::ConfigFile::new(text.into_bytes(), vm::Source::from(&path)))) {
-            Err(_) => return LoadRes::Panic, Ok(Err(_)) => return LoadRes::Err, Ok(Ok(f)) => f,
+            Err(_) => return (LoadRes::Panic, none.clone(), none), Ok(Err(_)) => return (LoadRes::Err, none.clone(), none), Ok(Ok(f)) => f,
         };
         let mut config = match catch_unwind(AssertUnwindSafe(|| self.manager.load(&file))) {
-            Err(_) => return LoadRes::Panic, Ok(Err(_)) => return LoadRes::Err, Ok(Ok(c)) => c,
+            Err(_) => return (LoadRes::Panic, ids(vm::loader_gate_names()), none), Ok(Err(_)) => return (LoadRes::Err, ids(vm::loader_gate_names()), none), Ok(Ok(c)) => c,
         };
         match catch_unwind(AssertUnwindSafe(|| self.manager.prepare(&config, &file))) {
-            Err(_) => return LoadRes::Panic, Ok(Err(_)) => return LoadRes::Err, Ok(Ok(())) => {}
+            Err(_) => return (LoadRes::Panic, none.clone(), none),
+            Ok(Err(_)) => return (LoadRes::Err, ids(vm::loader_gate_names()), ids(vm::pending_gate_names(&self.manager))),
+            Ok(Ok(())) => {}
         }
-        match catch_unwind(AssertUnwindSafe(|| self.manager.spawn(&mut config))) { Err(_) => LoadRes::Panic, Ok(()) => LoadRes::Ok }
+        match catch_unwind(AssertUnwindSafe(|| self.manager.spawn(&mut config))) { Err(_) => (LoadRes::Panic, none.clone(), none), Ok(()) => (LoadRes::Ok, none.clone(), none) }
     }
 
     pub fn get(&self, target: &str) -> (u16, String) {
@@ -201,35 +344,25 @@ impl Live {
         r.unwrap_or((599, "panic".into()))
     }
 
-    /// TCP connect (bounded wait: the unit may still be binding) + Initiation + Peer Up.
-    pub fn connect(&mut self, r: u8, port: u8, wait_ms: u64) -> bool {
+    /// TCP connect + Initiation + Peer Up. Each router comes from its own loopback address (the
+    /// unit keys routers by remote IP).
+    pub fn connect(&mut self, r: u8, port: u8) -> bool {
         let addr: SocketAddr = format!("127.0.0.1:{}", self.ports[port as usize]).parse().unwrap();
-        // each router comes from its own loopback address: the unit keys routers by remote IP
-        let t0 = Instant::now();
-        let sock = loop {
-            match connect_from(&format!("127.0.0.{}", 10 + r), addr) {
-                Ok(s) => break Some(s),
-                Err(_) if t0.elapsed() < Duration::from_millis(wait_ms) => std::thread::sleep(Duration::from_millis(3)),
-                Err(_) => break None,
-            }
-        };
-        let Some(mut sock) = sock else { return false };
+        let Ok(mut sock) = connect_from(&format!("127.0.0.{}", 10 + r), addr) else { return false };
         let peer = BmpPeer::plain(r as u32);
         let _ = sock.set_nodelay(true);
         let ok = sock.write_all(&mk_initiation_msg(&format!("router{r}"), "verif")).is_ok() && sock.write_all(&BmpRouter::peer_up_msg(&peer)).is_ok();
-        self.routers.insert(r, Router { sock, peer, port, alive: ok });
+        self.routers.insert(r, Router { sock, peer, sent: 2 });
         ok
     }
 
     pub fn send(&mut self, r: u8, ann: &[u16], wd: &[u16]) -> bool {
         let Some(rt) = self.routers.get_mut(&r) else { return false };
-        let msg = rm_msg(&rt.peer, ann, wd);
-        let ok = rt.sock.write_all(&msg).is_ok();
-        if !ok { rt.alive = false; }
-        ok
+        rt.sent += 1;
+        rt.sock.write_all(&rm_msg(&rt.peer, ann, wd)).is_ok()
     }
 
-    /// Has the peer closed the session (EOF / reset)? Non-blocking probe.
+    /// Has the other side closed the session (EOF / reset)? Non-blocking probe.
     pub fn session_closed(&mut self, r: u8) -> bool {
         let Some(rt) = self.routers.get_mut(&r) else { return true };
         let _ = rt.sock.set_nonblocking(true);
@@ -239,26 +372,56 @@ impl Live {
         res
     }
 
-    pub fn port_accepts(&self, port: u8) -> bool {
-        let addr: SocketAddr = format!("127.0.0.1:{}", self.ports[port as usize]).parse().unwrap();
-        TcpStream::connect_timeout(&addr, Duration::from_millis(200)).is_ok()
+    /// indexes of the case's ports that have a listening socket (from /proc/net/tcp: no connection is made)
+    pub fn listening(&self) -> Vec<u8> {
+        let txt = std::fs::read_to_string("/proc/net/tcp").unwrap_or_default();
+        let mut out = vec![];
+        for (i, p) in self.ports.iter().enumerate() {
+            let needle = format!("0100007F:{:04X}", p);
+            if txt.lines().any(|l| { let f: Vec<&str> = l.split_whitespace().collect(); f.len() > 3 && f[1] == needle && f[3] == "0A" }) { out.push(i as u8); }
+        }
+        out
     }
 
-    /// All records below 10.0.0.0/8 as sorted `(prefix, status)` with multiplicity, through the
-    /// HTTP API at `path` with the given more-specifics limit. `None`: no such endpoint (404).
-    pub fn rib_content(&self, path: &str, v4: u8) -> Option<Vec<(String, String)>> {
+    /// exact-match records of the prefixes `ids` at `path`: `None` = the endpoint does not exist
+    pub fn content(&self, path: &str, ids: &[u16]) -> Option<Vec<String>> {
         let mut out = vec![];
-        let queries: Vec<String> = if v4 <= 8 { vec![format!("{path}10.0.0.0/8?include=moreSpecifics")] } else { (0..4).map(|a| format!("{path}10.{a}.0.0/16?include=moreSpecifics")).collect() };
-        for q in queries {
-            let (st, body) = self.get(&q);
+        for id in ids {
+            let (st, body) = self.get(&format!("{}{}", path, pfx_str(*id)));
             if st != 200 { return None; }
             let v: serde_json::Value = serde_json::from_str(&body).ok()?;
-            for rec in v["included"]["moreSpecifics"].as_array()? {
-                out.push((rec["prefix"].as_str().unwrap_or("?").to_string(), rec["status"].as_str().unwrap_or("?").to_string()));
+            for rec in v["data"].as_array()? {
+                let asn: String = rec["ingress_info"]["remote_asn"].to_string().chars().filter(|c| c.is_ascii_digit()).collect();
+                let router = asn.parse::<u32>().ok().and_then(|a| a.checked_sub(65000)).map(|r| r.to_string()).unwrap_or("?".into());
+                out.push(format!("{}.{}{}", id, router, match rec["status"].as_str() { Some("active") => 'A', Some("withdrawn") => 'W', _ => '?' }));
             }
         }
-        out.sort();
+        out.sort_by_key(|s| { let (p, r) = s.split_once('.').unwrap(); (p.parse::<u16>().unwrap_or(0), r.to_string()) });
         Some(out)
+    }
+
+    /// the routers the unit's router-list page shows
+    pub fn routers_shown(&self, unit: usize) -> Option<Vec<u8>> {
+        let (st, body) = self.get(&format!("/routers{unit}/"));
+        if st != 200 { return None; }
+        let mut v: Vec<u8> = self.routers.keys().filter(|r| body.contains(&format!("router{}<", r)) || body.contains(&format!("router{}\"", r)) || body.contains(&format!(">router{}", r))).cloned().collect();
+        v.sort();
+        Some(v)
+    }
+
+    pub fn observe(&mut self, res: &str, ids: &[u16]) -> Obs {
+        let (u, _t) = vm::running_names(&self.manager);
+        let mut units: Vec<u32> = u.iter().map(|s| unit_id(s)).collect();
+        units.sort();
+        let answering: Vec<usize> = (0..PATHS.len()).filter(|i| self.get(&format!("{}10.0.0.0/24", PATHS[*i])).0 != 404).collect();
+        let rib = if answering.is_empty() { None } else {
+            let p = PATHS[answering[0]];
+            let lim = match self.get(&format!("{p}10.0.0.0/8?include=moreSpecifics")).0 { 200 => "8".to_string(), 400 => "16".to_string(), s => format!("?{s}") };
+            Some((join(answering.iter(), ""), lim, self.content(p, ids).unwrap_or_else(|| vec!["?".into()])))
+        };
+        let rs: Vec<u8> = self.routers.keys().cloned().collect();
+        let open: Vec<u8> = rs.into_iter().filter(|r| !self.session_closed(*r)).collect();
+        Obs { res: res.into(), units, rib, bmp: [self.routers_shown(0), self.routers_shown(1)], ports: self.listening(), open }
     }
 }
 
@@ -283,48 +446,446 @@ pub fn rm_msg(peer: &BmpPeer, ann: &[u16], wd: &[u16]) -> Bytes {
     mk_raw_route_monitoring_msg(&peer.pph(), Bytes::from(pdu))
 }
 
-impl Live {
-    /// exact-match records of the prefixes `ids` as sorted `id:status` with multiplicity
-    pub fn content(&self, path: &str, ids: &[u16]) -> Option<Vec<String>> {
-        let mut out = vec![];
-        for id in ids {
-            let (st, body) = self.get(&format!("{}{}", path, pfx_str(*id)));
-            if st != 200 { return None; }
-            let v: serde_json::Value = serde_json::from_str(&body).ok()?;
-            for rec in v["data"].as_array()? { out.push(format!("{}:{}", id, rec["status"].as_str().unwrap_or("?"))); }
+// ------------------------------------------------------------------ running one case
+
+fn poll<F: FnMut() -> bool>(max_ms: u64, mut f: F) -> bool {
+    let t0 = Instant::now();
+    loop {
+        if f() { return true; }
+        if t0.elapsed() > Duration::from_millis(max_ms) { return false; }
+        std::thread::sleep(Duration::from_micros(500));
+    }
+}
+
+fn key(p: u16, r: u8, active: bool) -> String { format!("{}.{}{}", p, r, if active { 'A' } else { 'W' }) }
+
+/// Runs the events on a fresh real pipeline. Returns (events with the observed inputs filled in,
+/// the observation after every event). Nothing waits longer than 2 s.
+pub fn run_real(dir: &std::path::Path, evs: &[LEv], ids: &[u16], f: Flags, rng: &mut Rng, rec: &mut Recorder) -> (Vec<LEv>, Vec<Obs>) {
+    let mut live = Live::new(dir);
+    let mut want = RefState::default();   // what the real code is expected to reach (settle target; flags as detected)
+    let mut out_evs = vec![];
+    let mut obs = vec![];
+    for e in evs {
+        match e {
+            LEv::Connect { r, port } => {
+                let ok = live.connect(*r, *port);
+                want.connect(*r, *port, f);
+                match (ok, want.session_unit(*r)) {
+                    (true, Some(u)) => { poll(2000, || live.routers_shown(u as usize).map(|s| s.contains(r)).unwrap_or(false)); }
+                    (true, None) => { poll(2000, || live.session_closed(*r)); }   // accepted by nobody / dropped
+                    _ => {}
+                }
+                out_evs.push(e.clone());
+                obs.push(live.observe("-", ids));
+            }
+            LEv::Route { r, active, pfx } => {
+                if *active { live.send(*r, pfx, &[]); } else { live.send(*r, &[], pfx); }
+                want.route(*r, *active, pfx, &[]);
+                settle_routes(&mut live, &want, *r, ids);
+                out_evs.push(e.clone());
+                obs.push(live.observe("-", ids));
+            }
+            LEv::Load { doc, forced, racing, .. } => {
+                let before: Vec<String> = live.observe("-", ids).rib.map(|x| x.2).unwrap_or_default();
+                let mut writer = None;
+                if *forced { live.window.release.store(false, Ordering::SeqCst); live.window.parked.store(0, Ordering::SeqCst); live.window.armed.store(true, Ordering::SeqCst); }
+                else if !racing.is_empty() {
+                    // another thread writes the messages, one prefix per message, with random gaps
+                    let mut msgs: Vec<(TcpStream, Bytes, u64)> = vec![];
+                    for x in racing {
+                        let Some(rt) = live.routers.get_mut(&x.r) else { continue };
+                        for p in &x.pfx {
+                            let Ok(s) = rt.sock.try_clone() else { continue };
+                            rt.sent += 1;
+                            msgs.push((s, if x.active { rm_msg(&rt.peer, &[*p], &[]) } else { rm_msg(&rt.peer, &[], &[*p]) }, rng.below(250)));
+                        }
+                    }
+                    let lead = rng.below(500);
+                    writer = Some(std::thread::spawn(move || {
+                        spin_us(lead);
+                        for (mut s, m, gap) in msgs { let _ = s.write_all(&m); spin_us(gap); }
+                    }));
+                    spin_us(rng.below(700));
+                }
+                let (res, residue, moved) = live.load(doc);
+                let res_s = match res { LoadRes::Ok => "ok", LoadRes::Err => "err", LoadRes::Panic => "panic" };
+                if *forced {
+                    // wait until a gate sits in its window, publish the messages, make sure the unit has
+                    // processed them, release
+                    poll(1000, || live.window.parked.load(Ordering::SeqCst) >= 1);
+                    std::thread::sleep(Duration::from_millis(3));
+                    rec.bump(&format!("live.forced-window.gates-held.{}", live.window.parked.load(Ordering::SeqCst)));
+                    for x in racing {
+                        if x.active { live.send(x.r, &x.pfx, &[]); } else { live.send(x.r, &[], &x.pfx); }
+                        if let Some(u) = want.session_unit(x.r) {
+                            let comp = unit_name(u);
+                            let sent: usize = live.routers.iter().filter(|(k, _)| want.session_unit(**k) == Some(u)).map(|(_, y)| y.sent).sum();
+                            poll(1000, || processed(&live, &comp) >= sent);
+                        }
+                    }
+                    std::thread::sleep(Duration::from_millis(3));
+                    live.window.armed.store(false, Ordering::SeqCst);
+                    live.window.release.store(true, Ordering::SeqCst);
+                }
+                if let Some(w) = writer { let _ = w.join(); }
+                if res == LoadRes::Ok { want.load(doc, f); } else { want.last = res_s.into(); }
+                settle_load(&mut live, &want);
+                let o = live.observe(res_s, ids);
+                // which racing updates made it? (a record that was there before in the same state proves nothing:
+                // the generator only races prefixes the router has not announced yet)
+                let recs = o.rib.as_ref().map(|x| x.2.clone()).unwrap_or_default();
+                let mut raced = vec![];
+                for x in racing {
+                    let mut lost = vec![];
+                    if want.wired(x.r) { for p in &x.pfx { let k = key(*p, x.r, x.active); if !recs.contains(&k) || (before.contains(&k) && false) { lost.push(*p); } } }
+                    want.route(x.r, x.active, &x.pfx, &lost);
+                    raced.push(Race { r: x.r, active: x.active, pfx: x.pfx.clone(), lost });
+                }
+                want.last = res_s.into();
+                out_evs.push(LEv::Load { doc: doc.clone(), forced: *forced, residue, moved, racing: raced });
+                obs.push(o);
+            }
         }
-        out.sort();
-        Some(out)
+    }
+    drop(live);
+    (out_evs, obs)
+}
+
+fn spin_us(us: u64) { let t = Instant::now(); while t.elapsed() < Duration::from_micros(us) { std::hint::spin_loop(); } }
+
+/// sum of `num_bmp_messages_processed_total` of one bmp-tcp-in unit
+fn processed(live: &Live, comp: &str) -> usize {
+    let m = live.get("/metrics").1;
+    m.lines().filter(|l| l.starts_with("rotonda_bmp_tcp_in_num_bmp_messages_processed_total") && l.contains(&format!("component=\"{comp}\""))).filter_map(|l| l.rsplit(' ').next()?.parse::<usize>().ok()).sum()
+}
+
+fn current_path(want: &RefState) -> Option<&'static str> { want.rib.as_ref().map(|r| PATHS[r.cfg.path as usize]) }
+
+/// after a route event on router `r`: wired -> until the expected records show; not wired -> until
+/// the unit has processed the message (then the absence is observed)
+fn settle_routes(live: &mut Live, want: &RefState, r: u8, ids: &[u16]) {
+    if want.wired(r) {
+        let exp: Vec<String> = want.obs(&[]).rib.map(|x| x.2).unwrap_or_default();
+        let p = current_path(want).unwrap();
+        poll(2000, || live.content(p, ids).map(|c| c == exp).unwrap_or(false));
+    } else if let Some(u) = want.session_unit(r) {
+        let comp = unit_name(u);
+        let sent: usize = live.routers.iter().filter(|(k, _)| want.session_unit(**k) == Some(u)).map(|(_, x)| x.sent).sum();
+        poll(500, || processed(live, &comp) >= sent);
+        std::thread::sleep(Duration::from_millis(3));
+    }
+}
+
+/// after a load: listeners, endpoints, closed sessions as expected; then every wired session proves
+/// its wiring with marker announcements (re-sent every few ms: one sent too early may fall into the
+/// reconfigure window)
+fn settle_load(live: &mut Live, want: &RefState) {
+    let routers: Vec<u8> = live.routers.keys().cloned().collect();
+    let exp = want.obs(&routers);
+    poll(2000, || live.listening() == exp.ports);
+    poll(2000, || { let (u, _) = vm::running_names(&live.manager); let mut x: Vec<u32> = u.iter().map(|s| unit_id(s)).collect(); x.sort(); x == exp.units });
+    for r in &routers { if !exp.open.contains(r) { poll(2000, || live.session_closed(*r)); } }
+    match current_path(want) {
+        None => { poll(2000, || PATHS.iter().all(|p| live.get(&format!("{p}10.0.0.0/24")).0 == 404)); }
+        Some(p) => {
+            poll(2000, || live.get(&format!("{p}10.0.0.0/24")).0 == 200);
+            let lim = if want.rib.as_ref().unwrap().cfg.v4 <= 8 { 200 } else { 400 };
+            poll(2000, || live.get(&format!("{p}10.0.0.0/8?include=moreSpecifics")).0 == lim);
+            for r in routers.iter().filter(|r| want.wired(**r) && exp.open.contains(r)) {
+                let t0 = Instant::now();
+                loop {
+                    let m = live.next_marker; live.next_marker += 1;
+                    live.send(*r, &[m], &[]);
+                    if poll(8, || live.content(p, &[m]).map(|c| !c.is_empty()).unwrap_or(false)) { break; }
+                    if t0.elapsed() > Duration::from_millis(2000) { break; }
+                }
+            }
+        }
+    }
+}
+
+// ------------------------------------------------------------------ generator
+
+fn pick_pfx(rng: &mut Rng, pool: &[u16], k: usize) -> Vec<u16> {
+    let mut s = BTreeSet::new();
+    for _ in 0..k { if !pool.is_empty() { s.insert(*rng.pick(pool)); } }
+    s.into_iter().collect()
+}
+
+pub fn gen_case(rng: &mut Rng, racing: bool) -> (Vec<LEv>, Vec<u16>) {
+    let load = |doc: &LDoc, racing: Vec<Race>| LEv::Load { doc: doc.clone(), forced: false, residue: BTreeSet::new(), moved: BTreeSet::new(), racing };
+    let mut doc = LDoc { bmp: [Some(BmpCfg { port: 0 }), None], rib: Some(RibCfg { sources: vec![0], v4: 8, path: 0 }), nulls: vec![(0, vec![2])], broken: 0 };
+    if rng.chance(30, 100) { doc.bmp[1] = Some(BmpCfg { port: 1 }); if rng.chance(50, 100) { doc.rib.as_mut().unwrap().sources.push(1); } else { doc.nulls.push((2, vec![1])); } }
+    if rng.chance(20, 100) { doc.rib.as_mut().unwrap().v4 = 16; }
+    let spec = Flags::default();
+    let mut st = RefState::default();
+    let mut evs = vec![load(&doc, vec![])];
+    st.load(&doc, spec);
+    let ids: Vec<u16> = default_ids();
+    let mut next_router = 0u8;
+    // routers mostly connect before the first reload (the code as written drops later ones)
+    for _ in 0..rng.range(if racing { 1 } else { 0 }, 2) {
+        let ports: Vec<u8> = st.bmp.iter().flatten().map(|b| b.port).collect();
+        let e = LEv::Connect { r: next_router, port: *rng.pick(&ports) };
+        st.apply(&e, spec); evs.push(e); next_router += 1;
+    }
+    let n = rng.range(3, 8);
+    for _ in 0..n {
+        let alive: Vec<u8> = (0..next_router).filter(|r| st.session_unit(*r).is_some()).collect();
+        // the code as written wedges a bmp-tcp-in unit during its sixth reload with a router connected, and what
+        // happens to its traffic then is timing: generated cases stay below (the wedge has its own case)
+        let near_wedge = st.bmp.iter().flatten().any(|b| b.reloads >= 4);
+        match if near_wedge { rng.below(5) } else { rng.below(10) } {
+            0 if next_router < 4 => {
+                // connect to a port some unit listens on (mostly) or to one nobody listens on
+                let ports: Vec<u8> = st.bmp.iter().flatten().map(|b| b.port).collect();
+                let port = if rng.chance(85, 100) && !ports.is_empty() { *rng.pick(&ports) } else { (0..3u8).find(|p| !ports.contains(p)).unwrap_or(2) };
+                let e = LEv::Connect { r: next_router, port };
+                st.apply(&e, spec); evs.push(e); next_router += 1;
+            }
+            1..=4 if !alive.is_empty() => {
+                let r = *rng.pick(&alive);
+                let k = rng.range(1, 3) as usize;
+                let e = LEv::Route { r, active: !rng.chance(25, 100), pfx: pick_pfx(rng, &ids, k) };
+                st.apply(&e, spec); evs.push(e);
+            }
+            _ if near_wedge => {}
+            _ => {
+                let new = edit(rng, &doc, &st, racing);
+                let mut races = vec![];
+                if racing {
+                    // only sessions whose wiring the reload does not change may race, and only with prefixes
+                    // that router has not announced yet (so that "is it there afterwards" decides)
+                    let mut after = st.clone(); after.load(&new, spec);
+                    for r in &alive { if st.wired(*r) && after.wired(*r) && rng.chance(85, 100) {
+                        let fresh: Vec<u16> = ids.iter().filter(|p| !st.rib.as_ref().unwrap().store.contains_key(&(**p, *r))).cloned().collect();
+                        let k = rng.range(1, 4) as usize;
+                        let pfx = pick_pfx(rng, &fresh, k);
+                        if !pfx.is_empty() { races.push(Race { r: *r, active: true, pfx, lost: vec![] }); }
+                    } }
+                }
+                let e = load(&new, races);
+                st.apply(&e, spec); evs.push(e);
+                if new.valid() { doc = new; }
+            }
+        }
+    }
+    (evs, ids)
+}
+
+/// what an operator does between two reloads
+fn edit(rng: &mut Rng, d: &LDoc, st: &RefState, racing: bool) -> LDoc {
+    let mut n = d.clone();
+    let b1_routes_in_rib = st.bmp[1].as_ref().map(|b| st.rib.as_ref().map(|r| r.store.keys().any(|(_, s)| b.sessions.contains(s))).unwrap_or(false)).unwrap_or(false);
+    let free_port = |d: &LDoc| (0..3u8).find(|p| !d.bmp.iter().flatten().any(|b| b.port == *p));
+    match rng.below(if racing { 9 } else { 14 }) {
+        0 => {}                                                                     // unchanged file
+        1 => { if let Some(r) = n.rib.as_mut() { r.v4 = if r.v4 == 8 { 16 } else { 8 }; } }
+        2 => { if let Some(r) = n.rib.as_mut() { r.path = 1 - r.path; } }
+        3 => { if let (Some(p), Some(b)) = (free_port(d), n.bmp[0].as_mut()) { b.port = p; } }
+        4 => { if n.rib.is_some() { if n.nulls.iter().any(|(t, _)| *t == 1) { n.nulls.retain(|(t, _)| *t != 1); } else { n.nulls.push((1, vec![2])); } } }
+        5 => { // add b1, wired into the rib
+            if let (None, Some(p)) = (&n.bmp[1], free_port(d)) { n.bmp[1] = Some(BmpCfg { port: p }); if let Some(r) = n.rib.as_mut() { r.sources.push(1); } else { n.nulls.push((2, vec![1])); } }
+        }
+        6 => n.broken = 1,
+        7 => n.broken = 2,
+        8 => { n.nulls.push((3, vec![7])); }                                         // unresolved link
+        9 => { // add b1 next to the rib (its own null target)
+            if let (None, Some(p)) = (&n.bmp[1], free_port(d)) { n.bmp[1] = Some(BmpCfg { port: p }); n.nulls.push((2, vec![1])); }
+        }
+        10 => { // toggle b1 in the rib's sources (b1 stays referenced through its own target)
+            if n.bmp[1].is_some() { if let Some(r) = n.rib.as_mut() {
+                if r.sources.contains(&1) { r.sources.retain(|s| *s != 1); if !n.nulls.iter().any(|(t, _)| *t == 2) { n.nulls.push((2, vec![1])); } } else { r.sources.push(1); }
+            } }
+        }
+        11 => { // remove the rib (b0 keeps running through a target of its own) / bring it back
+            if n.rib.is_some() { n.rib = None; n.nulls.retain(|(_, s)| !s.contains(&2)); if !n.nulls.iter().any(|(t, _)| *t == 4) { n.nulls.push((4, vec![0])); } if n.bmp[1].is_some() && !n.nulls.iter().any(|(t, _)| *t == 2) { n.nulls.push((2, vec![1])); } }
+            else { let mut s = vec![0]; if n.bmp[1].is_some() && rng.chance(50, 100) { s.push(1); } n.rib = Some(RibCfg { sources: s, v4: 8, path: 0 }); n.nulls.push((0, vec![2])); }
+        }
+        12 => { // remove b1 (not while routes of its sessions are in the RIB: the end-of-session withdrawals of a
+            // terminating unit race with the rib's own reconfiguration)
+            if n.bmp[1].is_some() && !b1_routes_in_rib { n.bmp[1] = None; n.nulls.retain(|(t, _)| *t != 2); if let Some(r) = n.rib.as_mut() { r.sources.retain(|s| *s != 1); } }
+        }
+        _ => { // b1 loses its last reference: "unused and will be stopped"
+            if n.bmp[1].is_some() && !b1_routes_in_rib { n.nulls.retain(|(t, _)| *t != 2); if let Some(r) = n.rib.as_mut() { r.sources.retain(|s| *s != 1); } }
+        }
+    }
+    n
+}
+
+// ------------------------------------------------------------------ case line, oracle
+
+pub fn case_line(evs: &[LEv]) -> String { format!("L|{}", join(evs.iter().map(|e| e.show()), "|")) }
+pub fn parse_case(line: &str) -> Option<Vec<LEv>> { line.strip_prefix("L|")?.split('|').map(LEv::parse).collect() }
+pub fn impl_line(obs: &[Obs]) -> String { join(obs.iter().map(|o| o.show()), " / ") }
+
+/// The property judged on the real observations (no Lean). At every event the real observation
+/// must equal the property's reference (`Flags::default()`) continued from the last state the real
+/// code was consistent with. If it equals instead the reference of one of the two *known*
+/// deterministic deviations (old HTTP path kept, new routers dropped after a reconfigure), the
+/// failure carries that site's signature and the run continues from there; anything else gets a
+/// signature naming the field that is wrong. A racing update that was dropped is reported per event.
+pub fn oracle(evs: &[LEv], obs: &[Obs]) -> String {
+    let mut cur = RefState::default();
+    let mut routers: Vec<u8> = vec![];
+    let mut fails: Vec<String> = vec![];
+    for (e, o) in evs.iter().zip(obs.iter()) {
+        if let LEv::Connect { r, .. } = e { routers.push(*r); }
+        if let LEv::Load { racing, forced, .. } = e {
+            let lost: Vec<String> = racing.iter().flat_map(|x| x.lost.iter().map(move |p| format!("{}@router{}", p, x.r))).collect();
+            if !lost.is_empty() { fails.push(format!("traffic:update-lost-in-reconfigure-window routes announced on an established session while the configuration was reloaded never reached the RIB ({}; {})", lost.join(","), if *forced { "gate held in the window" } else { "free-running race" })); }
+        }
+        let mut spec = cur.clone(); spec.apply(e, Flags::default());
+        let exp = spec.obs(&routers);
+        if *o == exp { cur = spec; continue; }
+        let fl = |p, c, q| Flags { path_ignored: p, clone_stale: c, queue_wedge: q };
+        let known = [(fl(true, false, false), "setting-not-adopted:rib:http_api_path the RIB keeps answering at the old path after a reload that changed http_api_path"),
+                     (fl(false, true, false), "sessions:new-router-dropped-after-reconfigure a router that connects to a bmp-tcp-in unit after a reload is accepted and dropped at once"),
+                     (fl(false, false, true), "gate:wedged-after-repeated-reloads after six reloads with a router connected the bmp-tcp-in unit no longer reacts to a reload (listen address not adopted)"),
+                     (fl(true, true, false), "setting-not-adopted:rib:http_api_path (and a dropped new router in the same step)"),
+                     (fl(true, false, true), "gate:wedged-after-repeated-reloads (and an old HTTP path kept in the same step)")];
+        let mut explained = false;
+        for (fl, what) in known {
+            let mut c = cur.clone(); c.apply(e, fl);
+            if c.obs(&routers) == *o { fails.push(what.to_string()); cur = c; explained = true; break; }
+        }
+        if explained { continue; }
+        let field = if o.res != exp.res { format!("load-result expected {} got {}", exp.res, o.res) }
+            else if o.units != exp.units { format!("running-units expected {:?} got {:?}", exp.units, o.units) }
+            else if o.bmp != exp.bmp || o.open != exp.open { format!("sessions expected b0={:?} b1={:?} open={:?} got b0={:?} b1={:?} open={:?}", exp.bmp[0], exp.bmp[1], exp.open, o.bmp[0], o.bmp[1], o.open) }
+            else if o.ports != exp.ports { format!("listen-address listening on port indexes {:?}, the file says {:?}", o.ports, exp.ports) }
+            else { match (&o.rib, &exp.rib) {
+                (Some(a), Some(b)) if a.2 != b.2 => format!("rib-content expected [{}] got [{}]", b.2.join(","), a.2.join(",")),
+                (Some(a), Some(b)) if a.1 != b.1 => format!("query-limit probe says {} the file says {}", a.1, b.1),
+                (Some(a), Some(b)) => format!("rib-path answers at {} the file says {}", a.0, b.0),
+                (None, Some(_)) => "rib-endpoint missing".to_string(),
+                _ => "rib-endpoint survived the unit".to_string(),
+            } };
+        fails.push(format!("live:{}", field.replacen(' ', " ", 1)));
+        cur = spec;
+    }
+    if fails.is_empty() { "ok".into() } else {
+        // an unknown deviation outranks the known ones
+        let first = fails.iter().find(|f| f.starts_with("live:")).unwrap_or(&fails[0]);
+        format!("fail {}", first)
+    }
+}
+
+// ------------------------------------------------------------------ witnesses, streams
+
+fn d0() -> LDoc { LDoc { bmp: [Some(BmpCfg { port: 0 }), None], rib: Some(RibCfg { sources: vec![0], v4: 8, path: 0 }), nulls: vec![(0, vec![2])], broken: 0 } }
+fn ld(doc: &LDoc) -> LEv { LEv::Load { doc: doc.clone(), forced: false, residue: BTreeSet::new(), moved: BTreeSet::new(), racing: vec![] } }
+pub fn default_ids() -> Vec<u16> { (0..12).map(|i| i * 21 % 256).collect() }
+
+fn record(rec: &mut Recorder, kind: &str, evs: &[LEv], obs: &[Obs]) {
+    rec.bump(&format!("live.kind.{kind}"));
+    for e in evs { rec.bump(match e { LEv::Connect { .. } => "live.ev.connect", LEv::Route { .. } => "live.ev.route", LEv::Load { racing, forced, .. } => if *forced { "live.ev.load-forced-window" } else if racing.is_empty() { "live.ev.load" } else { "live.ev.load-with-racing-updates" } }); }
+    let raced: usize = evs.iter().map(|e| match e { LEv::Load { racing, .. } => racing.iter().map(|x| x.pfx.len()).sum(), _ => 0 }).sum();
+    let lost: usize = evs.iter().map(|e| match e { LEv::Load { racing, .. } => racing.iter().map(|x| x.lost.len()).sum(), _ => 0 }).sum();
+    rec.bump_by("live.racing-updates.sent", raced as u64);
+    rec.bump_by("live.racing-updates.lost", lost as u64);
+    for o in obs { rec.bump(&format!("live.load-result.{}", o.res)); }
+    // non-trivial: a reload happened while at least one router session existed
+    let mut sess = false; let mut nontrivial = false;
+    for (e, o) in evs.iter().zip(obs.iter()) { if let LEv::Load { .. } = e { if sess && o.res == "ok" { nontrivial = true; } } if !o.open.is_empty() { sess = true; } }
+    rec.case(case_line(evs), impl_line(obs), oracle(evs, obs), nontrivial);
+}
+
+/// Runs a witness with the flags assumed as written; if the real code disagrees, runs it again with `flip`
+/// applied (so that nothing waits for a state that will not come) and reports the second run.
+fn witness(dir: &std::path::Path, evs: &[LEv], assumed: Flags, flipped: Flags, rng: &mut Rng, rec: &mut Recorder) -> (Vec<LEv>, Vec<Obs>, bool) {
+    let ids = default_ids();
+    let expect = |f: Flags, evs2: &[LEv]| { let mut st = RefState::default(); let mut rs = vec![]; let mut out = vec![]; for e in evs2 { if let LEv::Connect { r, .. } = e { rs.push(*r); } st.apply(e, f); out.push(st.obs(&rs)); } out };
+    let (e1, o1) = run_real(dir, evs, &ids, assumed, rng, rec);
+    if o1 == expect(assumed, &e1) { return (e1, o1, true); }
+    let (e2, o2) = run_real(dir, evs, &ids, flipped, rng, rec);
+    (e2, o2, false)
+}
+
+/// The witnesses of the counterexample theorems, replayed first; they decide the variants.
+pub fn witnesses(dir: &std::path::Path, rng: &mut Rng, rec: &mut Recorder, record_them: bool) -> Flags {
+    let aw = Flags { path_ignored: true, clone_stale: true, queue_wedge: true };
+    // (1) a reload that changes the rib's http_api_path (and its query limit, which must be adopted either way)
+    let mut d1 = d0(); d1.rib.as_mut().unwrap().path = 1; d1.rib.as_mut().unwrap().v4 = 16;
+    let w = vec![ld(&d0()), LEv::Connect { r: 0, port: 0 }, LEv::Route { r: 0, active: true, pfx: vec![21] }, ld(&d1)];
+    let (e, o, as_written) = witness(dir, &w, aw, Flags { path_ignored: false, ..aw }, rng, rec);
+    let path_ignored = as_written;
+    if record_them { record(rec, "witness-path", &e, &o); }
+    let aw = Flags { path_ignored, ..aw };
+    // (2) a router that connects after a reload
+    let w = vec![ld(&d0()), LEv::Connect { r: 0, port: 0 }, ld(&d0()), LEv::Connect { r: 1, port: 0 }, LEv::Route { r: 1, active: true, pfx: vec![42] }, LEv::Route { r: 0, active: true, pfx: vec![63] }];
+    let (e, o, as_written) = witness(dir, &w, aw, Flags { clone_stale: false, ..aw }, rng, rec);
+    let clone_stale = as_written;
+    if record_them { record(rec, "witness-clone-sender", &e, &o); }
+    let aw = Flags { clone_stale, ..aw };
+    // (3) twelve reloads with a router connected to a unit, then that unit's listen address changes. The unit
+    //     is not wired to the rib: what happens to a wedged unit's traffic is timing and not looked at.
+    let dw = LDoc { bmp: [Some(BmpCfg { port: 0 }), Some(BmpCfg { port: 1 })], rib: Some(RibCfg { sources: vec![0], v4: 8, path: 0 }), nulls: vec![(0, vec![2]), (2, vec![1])], broken: 0 };
+    let mut dw2 = dw.clone(); dw2.bmp[1] = Some(BmpCfg { port: 2 });
+    let mut w = vec![ld(&dw), LEv::Connect { r: 0, port: 1 }];
+    for _ in 0..12 { w.push(ld(&dw)); }
+    w.push(ld(&dw2));
+    let (e, o, as_written) = witness(dir, &w, aw, Flags { queue_wedge: false, ..aw }, rng, rec);
+    let queue_wedge = as_written;
+    if record_them { record(rec, "witness-queue-wedge", &e, &o); }
+    let f = Flags { path_ignored, clone_stale, queue_wedge };
+    // (4) the reconfigure window, forced: the gate is held right after it installed the empty subscriber set
+    if record_them {
+        let w = vec![ld(&d0()), LEv::Connect { r: 0, port: 0 }, LEv::Route { r: 0, active: true, pfx: vec![21] },
+            LEv::Load { doc: d0(), forced: true, residue: BTreeSet::new(), moved: BTreeSet::new(), racing: vec![Race { r: 0, active: true, pfx: vec![42, 63], lost: vec![] }] },
+            LEv::Route { r: 0, active: true, pfx: vec![84] }];
+        let (e, o) = run_real(dir, &w, &default_ids(), f, rng, rec);
+        record(rec, "witness-forced-window", &e, &o);
+    }
+    f
+}
+
+/// The generated streams: `n_seq` sequential cases, `n_race` cases whose reloads race with announcements.
+pub fn streams(dir: &std::path::Path, f: Flags, rng: &mut Rng, rec: &mut Recorder, n_seq: usize, n_race: usize, deadline: Instant) {
+    for k in 0..(n_seq + n_race) {
+        if Instant::now() > deadline { rec.bump("live.stopped-by-time-budget"); break; }
+        let racing = k >= n_seq;
+        let (evs, ids) = gen_case(rng, racing);
+        let (e, o) = run_real(dir, &evs, &ids, f, rng, rec);
+        record(rec, if racing { "racing" } else { "sequential" }, &e, &o);
+    }
+}
+
+pub fn replay(dir: &std::path::Path, line: &str, f: Flags, rng: &mut Rng, rec: &mut Recorder) {
+    if let Some(evs) = parse_case(line) {
+        let (e, o) = run_real(dir, &evs, &default_ids(), f, rng, rec);
+        record(rec, "replay", &e, &o);
     }
 }
 
 pub fn debug_main() {
     let dir = std::env::temp_dir().join(format!("verif-c13l-{}", std::process::id()));
     std::fs::create_dir_all(&dir).unwrap();
-    let d0 = LDoc { bmp: [Some(BmpCfg { port: 0 }), None], rib: Some(RibCfg { sources: vec![0], v4: 8, path: 0 }), nulls: vec![(0, vec![2])], broken: 0 };
-    let ids: Vec<u16> = (0..8).collect();
-    for variant in 0..5 {
-        let mut l = Live::new(&dir);
-        let t = Instant::now();
-        eprintln!("--- variant {variant}: load0 {:?}", l.load(&d0));
-        eprintln!("connect {} {:?}", l.connect(0, 0, 2000), t.elapsed());
-        l.send(0, &[1, 2], &[]);
-        for _ in 0..1000 { if let Some(c) = l.content(PATHS[0], &ids) { if c.len() >= 2 { break; } } std::thread::sleep(Duration::from_millis(1)); }
-        eprintln!("content {:?} {:?}", l.content(PATHS[0], &ids), t.elapsed());
-        let mut d1 = d0.clone();
-        match variant { 0 => {}, 1 => d1.rib.as_mut().unwrap().v4 = 16, 2 => d1.bmp[0].as_mut().unwrap().port = 1, 3 => d1.nulls.push((1, vec![2])), _ => d1.rib.as_mut().unwrap().path = 1 }
-        eprintln!("load1 {:?} {:?}", l.load(&d1), t.elapsed());
-        l.send(0, &[3], &[]);
-        for w in [1u64, 10, 100, 500] {
-            std::thread::sleep(Duration::from_millis(w));
-            eprintln!("  +{w}ms content {:?} / new path {:?}", l.content(PATHS[0], &ids), l.content(PATHS[1], &ids));
+    let mut rng = Rng::new(std::env::var("VERIF_SEED").ok().and_then(|s| s.parse().ok()).unwrap_or(1));
+    let mut rec = Recorder::new("debug");
+    let f = Flags { path_ignored: true, clone_stale: true, queue_wedge: true };
+    let t0 = Instant::now();
+    if let Ok(c) = std::env::var("CASE") {
+        let evs = parse_case(&c).expect("case");
+        let ids: Vec<u16> = (0..12).map(|i| i * 21 % 256).collect();
+        for k in 0..10 {
+            let t = Instant::now();
+            let (evs2, obs) = run_real(&dir, &evs, &ids, f, &mut rng, &mut rec);
+            eprintln!("run {k} ({:?}): {}", t.elapsed(), case_line(&evs2));
+            if std::env::var("VERBOSE").is_ok() { for (e, o) in evs2.iter().zip(obs.iter()) { eprintln!("    {:<44} {}", e.show(), o.show()); } }
+            eprintln!("  oracle: {}", oracle(&evs2, &obs));
         }
-        l.send(0, &[4], &[]);
-        std::thread::sleep(Duration::from_millis(100));
-        eprintln!("  later content {:?}", l.content(PATHS[0], &ids));
-        eprintln!("  limit probe {:?}", l.get("/prefixes/10.0.0.0/8?include=moreSpecifics").0);
-        eprintln!("  port0 accepts {} port1 accepts {} closed {}", l.port_accepts(0), l.port_accepts(1), l.session_closed(0));
+        return;
     }
+    for k in 0..30 {
+        let (evs, ids) = gen_case(&mut rng, k % 2 == 1);
+        let t = Instant::now();
+        let (evs2, obs) = run_real(&dir, &evs, &ids, f, &mut rng, &mut rec);
+        eprintln!("case {k} ({:?}): {}", t.elapsed(), case_line(&evs2));
+        for (e, o) in evs2.iter().zip(obs.iter()) { eprintln!("    {:<44} {}", e.show(), o.show()); }
+        eprintln!("  oracle: {}", oracle(&evs2, &obs));
+    }
+    eprintln!("total {:?}", t0.elapsed());
     let _ = std::fs::remove_dir_all(&dir);
-    let _ = (Arc::new(AtomicBool::new(false)).load(Ordering::SeqCst), Rng::new(1).below(2), Recorder::new("x").cases.len());
 }
